@@ -101,6 +101,7 @@ type Tr struct {
 	specDefs map[string]*specDef
 	pseudoArgs []ssa.Value
 	onlyInstrs map[ssa.Instruction]bool // when set: translate only these (plus control flow)
+	clauseHits map[*Clause]int // call clauses: number of call sites each one matched
 	aliases  map[string]string // contract identifier -> local of the current source (a renamed local, see rebindRenamedLocals)
 }
 
@@ -113,6 +114,16 @@ type deferRec struct {
 type heldLock struct {
 	li  *LockInv
 	obj Term
+}
+
+// clauseLabel returns the [label] of a call clause, "" if it has none.
+func clauseLabel(text string) string {
+	if i := strings.Index(text, "["); i >= 0 {
+		if j := strings.Index(text[i:], "]"); j > 0 {
+			return text[i+1 : i+j]
+		}
+	}
+	return ""
 }
 
 func (t *Tr) note(f string, a ...interface{}) {
@@ -843,6 +854,20 @@ func (t *Tr) finish() {
 		return
 	}
 	ct := t.ct
+	if ct != nil && t.onlyInstrs == nil {
+		// a call clause that matches no call site generates no obligation: it must not pass in silence (a renamed
+		// callee, a clause written against the wrong name)
+		for _, cl := range ct.Calls {
+			f := strings.Fields(cl.Text)
+			if len(f) < 3 || f[1] != "requires" || t.clauseHits[cl] > 0 {
+				continue
+			}
+			if m := clausePropRe.FindStringSubmatch(clauseLabel(cl.Text)); m != nil && currentProp != "" && m[1] != currentProp {
+				continue // belongs to another property's check
+			}
+			t.unsup("call clause (%s:%d) matches no call site: %s", cl.File, cl.Line, cl.Text)
+		}
+	}
 	if ct != nil {
 		for k, e := range ct.Preserves {
 			var parts []Term
